@@ -44,6 +44,14 @@ func truncateBeforePIP10(sc *Scenario) {
 }
 
 func genPIP10Scenario(t *rapid.T, st *Stats) (*Scenario, pip10Info) {
+	return genPIP10ScenarioGaps(t, st, true)
+}
+
+// genPIP10ScenarioGaps: shortGaps=false keeps ungraded heights out of the short-window family
+// (C18: a rich-list request that computes the averages of an older height than the sync loop holds
+// forces a reload by height, after which the registered finding C09/avg-window changes conversion
+// amounts — see C18/stale-rich-list-reload).
+func genPIP10ScenarioGaps(t *rapid.T, st *Stats, shortGaps bool) (*Scenario, pip10Info) {
 	var info pip10Info
 	k := rapid.IntRange(5, 8).Draw(t, "k")
 	start := uint32(144*k + rapid.IntRange(1, 100).Draw(t, "off"))
@@ -54,7 +62,7 @@ func genPIP10Scenario(t *rapid.T, st *Stats) (*Scenario, pip10Info) {
 	// C09/avg-window makes some (chain, restart) combinations diverge; those are recognised
 	// exactly, by replaying the cache arithmetic on the rated heights (avgWindowDiverges), and only
 	// those restart heights are dropped.
-	gapsAllowed := true
+	gapsAllowed := shortGaps
 	if rapid.Bool().Draw(t, "longWindow") {
 		// a window longer than the whole chain: the averaging window never slides past the first
 		// rated height, so reload-by-height and maintain-by-count coincide and ungraded heights
@@ -76,7 +84,7 @@ func genPIP10Scenario(t *rapid.T, st *Stats) (*Scenario, pip10Info) {
 				graded = false
 				info.Gaps++
 			} else {
-				st.Exclude("C09/avg-window")
+				st.Exclude("C18/stale-rich-list-reload")
 			}
 		}
 		if graded {
